@@ -4,11 +4,40 @@
 use crate::kernel::report::{Ctx, PropertyMeta, Stats, Tier};
 
 pub mod gamma;
+pub mod memo;
 pub mod stream;
 
-pub const CLAIMED: [&str; 2] = ["C05", "C09"];
+pub const CLAIMED: [&str; 4] = ["C01", "C03", "C05", "C09"];
 
-static META: [PropertyMeta; 2] = [
+static META: [PropertyMeta; 4] = [
+    PropertyMeta {
+        id: "C01",
+        level: "exploration",
+        engine: "memo-sim",
+        rule: "a run = 1-3 worlds (OS threads with seeded stack sizes, released one at a time) and 3-6 cooperative tasks whose stages are single public API calls (T::ty, IDLBuilder::new/default, arg, serialize/serialize_to_vec, Encode!/encode_one, IDLDeserialize::new_with_config, get_value, done, Decode!/decode_one, try_from_candid_type, TypeContainer::add, subtype on knot types, env_clear) over a corpus of ~400 concrete Rust types (cross product of element/key/value types under every container, derived, generic, renamed, recursive and mutually recursive types), interleaved by a seeded scheduler (sequential, uniform, bursty, alternating) with injected history events: env_clear at arbitrary instants, arguments that fail mid-value, decodes that fail mid-value (truncated message, quota abort, wrong type), abandoned builders/decoders, writer faults. Every task is also executed alone on a fresh thread as the reference. distinct = distinct (fingerprint of the thread memo before the call over 12 tracked recursive/derived types, API call kind, corpus type). non-trivial = at least two tasks shared a thread.",
+        assumptions: &[
+            "'whatever ran before' = earlier completed or failed API calls of any task on the thread, and env_clear (public); re-entrancy from inside user Deserialize impls is not generated",
+            "bytes are not required to be equal across different histories (the source documents that memo order may change the table layout), only outcomes and decoded values",
+            "corpus values are compared through hand-written abstract values (floats bit-for-bit, hash containers as sets)",
+            "after an arg or get_value that returned Err the builder/decoder is abandoned; nothing is demanded of it",
+        ],
+        real_components: &["candid::ser (IDLBuilder, TypeSerialize, ValueSerializer)", "candid::de (IDLDeserialize, Deserializer)", "candid::types (thread-local type memo, CandidType impls, subtype, TypeContainer)", "candid_derive", "serde, num-bigint, stacker (real remaining stack on real small stacks)"],
+        stub_components: &["io::Write -> SimWriter", "scheduler: which task's next API call runs, on which thread"],
+    },
+    PropertyMeta {
+        id: "C03",
+        level: "exploration",
+        engine: "memo-sim + writer seam",
+        rule: "same worlds, tasks and histories as C01, plus typed-untyped tasks (value_arg_with_type, IDLArgs::to_bytes_with_types over generated (environment, type, value) triples incl. recursive definitions and primitive aliases); every byte string for which the real API returned Ok is parsed by the reference wire decoder RD (written from the spec) and compared with the harness-side type (bisimulation) and abstract value; serialize runs against SimWriter fault plans, is retried after writer errors and repeated on the same builder; one-shot encodes run twice back to back. distinct = distinct (memo fingerprint, API call kind, corpus type). non-trivial = at least two tasks shared a thread.",
+        assumptions: &[
+            "models/rd.rs is the definition of the binary grammar (strict: composite-only table, ascending ids/names, <=1 annotation, indices in range, canonical bool/opt tags, nothing left over)",
+            "corpus types carry hand-written sim_type()/av() that do not go through CandidType::_ty() or idl_serialize",
+            "value_arg/to_bytes without types (type inference) are not judged; after a failed arg the builder is abandoned",
+            "breadth of type shapes is that of the workload corpus",
+        ],
+        real_components: &["candid::ser", "candid::types::value (annotate_type, idl_serialize of IDLValue)", "candid_derive", "thread-local type memo"],
+        stub_components: &["io::Write -> SimWriter (short write, EINTR, write-zero, hard error at offset)", "scheduler"],
+    },
     PropertyMeta {
         id: "C05",
         level: "exploration",
@@ -52,6 +81,10 @@ fn js<T: serde::Serialize>(x: T) -> serde_json::Value {
 macro_rules! dispatch {
     ($prop:expr, $m:ident => $body:expr, $default:expr) => {
         match $prop {
+            "C01" | "C03" => {
+                use memo as $m;
+                $body
+            }
             "C05" => {
                 use gamma as $m;
                 $body
@@ -66,11 +99,11 @@ macro_rules! dispatch {
 }
 
 pub fn runs_for(prop: &str, tier: Tier) -> u64 {
-    dispatch!(prop, m => m::runs_for(tier), 0)
+    dispatch!(prop, m => m::runs_for(prop, tier), 0)
 }
 
 pub fn generate(prop: &str, tier: Tier, seed: u64, run: u64) -> serde_json::Value {
-    dispatch!(prop, m => js(m::generate(tier, seed, run)), serde_json::Value::Null)
+    dispatch!(prop, m => js(m::generate(prop, tier, seed, run)), serde_json::Value::Null)
 }
 
 pub fn execute(prop: &str, sc: &serde_json::Value, ctx: &mut Ctx) -> Result<(), String> {
@@ -87,7 +120,7 @@ pub fn size(prop: &str, sc: &serde_json::Value) -> usize {
 
 /// Invariants whose evaluation may kill the process must be minimised in a child.
 pub fn crash_class(invariant: &str) -> bool {
-    invariant == "process-death" || invariant.starts_with("crash-")
+    invariant == "process-death" || invariant == "run-terminates" || invariant.starts_with("crash-")
 }
 
 pub fn extra_evidence(prop: &str, tier: Tier, stats: &Stats) -> serde_json::Value {
